@@ -225,7 +225,7 @@ def _debounce_part(chk, graph, D, M, tag, full_modes, cap, rng):
     # does the current code show the known failure shape on its witness schedule?
     wit = drv.execute({"t": [0, 0, D], "key": [3, 1, 2], "endT": D + M + 1}, D, M, ["after", "after", "before"],
                       ["inner", "mark"])
-    dev = wit["out"] != [2, 1, 3]
+    dev = wit["out"] == [3, 2, 1]          # the edge item was passed through ahead of the sorted burst
     batch = {"kind": "debounce", "D": D, "M": M, "dev": dev, "traces": traces + [wit]}
     (verdicts, _), (reached, res) = _judge(chk, batch, "sync/TraceDebounce.tla", "sync/TraceDebounce.cfg", "deb_" + tag)
     if res.violated:
